@@ -18,7 +18,9 @@ type wconf struct {
 	leveled      map[int][]int
 }
 
-func confDefault() *wconf { return &wconf{normal: []int{-1}, errw: []int{-2}, leveled: map[int][]int{}} }
+func confDefault() *wconf {
+	return &wconf{normal: []int{-1}, errw: []int{-2}, leveled: map[int][]int{}}
+}
 
 func delFirst(l []int, w int) []int {
 	for i, x := range l {
@@ -87,8 +89,8 @@ var levelSettable = map[int]bool{5: true, 6: true}
 
 type c03Probe struct {
 	Lvl   int     `json:"lvl"`
-	Dest  []int   `json:"dest"`  // writers written to, in order (stdout=-1, stderr=-2)
-	Told  []int   `json:"told"`  // writers told the level right before their write
+	Dest  []int   `json:"dest"` // writers written to, in order (stdout=-1, stderr=-2)
+	Told  []int   `json:"told"` // writers told the level right before their write
 	Exp   []int   `json:"expected_dest"`
 	Panic string  `json:"panic,omitempty"`
 	Evs   []event `json:"-"`
@@ -102,7 +104,7 @@ type c03Case struct {
 	Panic  string     `json:"panic_in_ops,omitempty"`
 }
 
-const customErrLevel = 13  // registered with RegWithPrintToErrorDevice
+const customErrLevel = 13   // registered with RegWithPrintToErrorDevice
 const customPlainLevel = 14 // registered without
 
 func c03Probe1(e *slog.Entry, lvl int) (p c03Probe) {
